@@ -820,6 +820,20 @@ def format_value(I, v, spec, conversion):
             I.raise_py(type(e).__name__, str(e))
     if isinstance(v, PStr) and spec == '':
         return v
+    if isinstance(v, PStr) and isinstance(spec, str):
+        from .models_uri import pad_str         # added for C20: '[[fill]align][width]' on a symbolic string
+        r = pad_str(I, v, spec)
+        if r is not None:
+            return r
+    if isinstance(v, SInt) and isinstance(spec, str) and len(spec) > 2 and spec[1] in '<>' and spec[2:3] != '0':
+        # added for C20: '{fill}{align}{width}{X|x|d}' = the unpadded digits, then padded as a string
+        import re as _re
+        m = _re.fullmatch(r'(.)([<>])(\d+)([Xxd]?)', spec)
+        if m:
+            from .models_uri import pad_str
+            digits = fmt_symbolic_int(I, v, m.group(4))
+            if not isinstance(digits, Opaque):
+                return pad_str(I, digits, m.group(1) + m.group(2) + m.group(3))
     if isinstance(v, SInt):
         return fmt_symbolic_int(I, v, spec)
     if isinstance(v, tuple) and all(not is_sym(x) and isinstance(x, (int, str, float)) for x in v) and spec == '':
